@@ -50,6 +50,12 @@ def run(chk):
                             chk.bad('C10-R1', nm, 'static:%s' % T.last_seg(n['d']), '%s (reachable from the parser) uses the interior-mutable static %s: %s' % (nm, n['d'], t), relfile, n['l'])
                         else:
                             chk.ok('C10-R1', (nm, n['d']))
+    # positive control for the zero-expected rule: the patterns must match the def-paths rustc prints for these functions
+    ctl = ['std::time::SystemTime::now', 'std::time::Instant::now', 'erg_common::random::random', 'std::hash::random::RandomState::new', 'std::env::var']
+    chk.need(all(any(pat in c for pat, _ in FORBIDDEN) for c in ctl), 'C10-R1 positive control failed: a forbidden-effect pattern no longer matches its def-path')
+    # and the call graph must actually see such calls where they exist: erg_common::serialize::get_timestamp_bytes calls SystemTime::now
+    chk.need(any('SystemTime::now' in c for c in g.get('serialize::get_timestamp_bytes', ())), 'C10-R1 positive control failed: the call graph does not show '
+             'serialize::get_timestamp_bytes -> SystemTime::now')
     if hits == 0:
         chk.ok('C10-R1', 'no-forbidden-callee', sample='%d reachable functions, none calls a clock / RNG / RandomState / env' % len(reach))
     chk.analysed['static uses in reachable functions'] = nstat
